@@ -24,7 +24,7 @@ ID = "C14"
 LEVEL = "exploration"
 SEGMENT_TIMEOUT = 180
 TIERS = {
-    "quick": dict(plans=90, budget_s=75, worlds=6, det_plans=2, hashseeds=8),
+    "quick": dict(plans=90, budget_s=75, worlds=15, det_plans=2, hashseeds=8),
     "thorough": dict(plans=6000, budget_s=1200, worlds=80, det_plans=12, hashseeds=256,
                      always_selftest=True),
 }
@@ -77,7 +77,49 @@ def gen_world(seed, wi):
             "build": "hg19" if rng.random() < 0.8 else "hg38"}
 
 
+def _ambiguous_pair(g):
+    """(single-a, single-b, combined) allele names of an ambiguous catalogue."""
+    normal = [a for a in g["alleles"] if a["kind"] == "normal"]
+    func = lambda a: tuple(sorted(v for v in a["vars"] if g["variants"][v]["func"]))  # noqa
+    by = {}
+    for a in normal:
+        by.setdefault(func(a), []).append(a["name"])
+    for fs, names in by.items():
+        if len(fs) == 2 and (fs[0],) in by and (fs[1],) in by and () in by:
+            return by[(fs[0],)][0], by[(fs[1],)][0], names[0], by[()][0]
+    return None
+
+
 def gen_units(rng, g):
+    amb = _ambiguous_pair(g)
+    if amb and rng.random() < 0.5:
+        a, b, ab, ref = amb
+        units = [{"type": "normal", "allele": a}, {"type": "normal", "allele": b}]
+        if rng.random() < 0.5:
+            units = [{"type": "normal", "allele": ab}, {"type": "normal", "allele": ref}]
+        _add_noise(rng, g, units)
+        return units
+    units = _gen_units(rng, g)
+    _add_noise(rng, g, units)
+    return units
+
+
+def _add_noise(rng, g, units):
+    """Low-fraction extra SNPs (catalogued or not) on some copies: what the read
+    filters exist for, and what makes the filters' copy-number dependence visible."""
+    snps = [k for k, v in list(g["variants"].items()) + list(g.get("unused_variants", {}).items())
+            if v["kind"] == "snp"]
+    if not snps or rng.random() < 0.4:
+        return
+    for _ in range(rng.randint(1, 2)):
+        u = rng.choice(units)
+        if u["type"] == "deletion":
+            continue
+        u.setdefault("noise", []).append(
+            {"vid": rng.choice(snps), "frac": rng.choice([0.2, 0.3, 0.35, 0.4, 0.5, 0.6])})
+
+
+def _gen_units(rng, g):
     normal = [a["name"] for a in g["alleles"] if a["kind"] == "normal"]
     dele = [a["name"] for a in g["alleles"] if a["kind"] == "deletion"]
     lf = [a["name"] for a in g["alleles"] if a["kind"] == "lfusion"]
@@ -108,7 +150,7 @@ def gen_op(rng, w):
     )
     op = {"op": kind, "sample": sample}
     if kind in ("genotype", "debug"):
-        op["gene"] = rng.choice(genes)
+        op["gene"] = rng.choice(genes + ([failing] if kind == "genotype" and rng.random() < 0.1 else []))
         op["out"] = rng.choice(OUT_KINDS)
     elif kind == "multi":
         gl = list(genes)
@@ -250,6 +292,17 @@ def _cmp_result(a, b):
     return None
 
 
+def _refinement_set(lst):
+    """Order-free view of the refinements of one candidate: allele multiset with
+    added / missing variants and the diplotype strings (copy order inside the
+    solution list is an artefact of construction order and is ignored here)."""
+    out = []
+    for x in lst:
+        out.append(canon.jdump([sorted(canon.jdump(a) for a in x["solution"]),
+                                x.get("major_diplotype"), x.get("minor_diplotype")]))
+    return sorted(out)
+
+
 def _v(clause, **detail):
     return {"clause": clause, "detail": detail}
 
@@ -274,17 +327,26 @@ def judge(plan, outcome):
                     if rd is not None and rd != dg:
                         vs.append(_v("catalogue differs from a fresh load", gene=g, **where))
             if op["op"] == "minor_order":
-                nat = ref["refinements"]
-                for key, val in r["refinements"].items():
-                    if key not in nat:
-                        continue
-                    d = _cmp_result(val, nat[key])
-                    if d:
-                        clause = ("minor refinement depends on companion candidates"
-                                  if r["order_kind"] == "subset"
-                                  else "minor refinement depends on candidate order")
-                        vs.append(_v(clause, candidate=key, diff=d, order=r["order"],
-                                     got=val, alone_or_natural=nat[key], **where))
+                def cmp(got, want, clause, **extra):
+                    for key, val in got.items():
+                        if key not in want:
+                            continue
+                        a, b = _refinement_set(val), _refinement_set(want[key])
+                        if a == b:
+                            continue
+                        sa = sorted(round(x["score"], 4) for x in val)
+                        sb = sorted(round(x["score"], 4) for x in want[key])
+                        tie = len(sa) == len(sb) and all(abs(x - y) < 1e-3 for x, y in zip(sa, sb))
+                        c = clause + (" (equal objective: tie resolved differently)" if tie
+                                      else " (different objective)")
+                        vs.append(_v(c, candidate=key, got=a, want=b, scores=[sa, sb], **extra, **where))
+
+                # same process, same hash seed: only the candidate list differs
+                cmp(r["refinements"], r["natural"],
+                    "minor refinement depends on companion candidates" if r["order_kind"] == "subset"
+                    else "minor refinement depends on candidate order", order=r["order"])
+                # same candidate list: only the environment (hash seed, history) differs
+                cmp(r["natural"], ref["natural"], "minor-stage result differs from a fresh run")
                 continue
             # (i) same result as the stand-alone reference
             d = _cmp_result(r.get("result"), ref.get("result"))
@@ -327,8 +389,13 @@ def signature(v):
     d = v["detail"]
     sig = {"clause": v["clause"]}
     if "what" in d:
-        sig["what"] = d["what"]
+        import re
+
+        sig["what"] = d["what"].split(":")[0]
         sig["after"] = d.get("after")
+        sig["field"] = re.sub(r"/\d+", "/*", (d.get("path") or "").split(":")[0])
+    if "op" in d:
+        sig["op"] = d["op"]["op"]
     return sig
 
 
@@ -559,7 +626,7 @@ def _state_changes(ctx, after):
             now = canon.gene(ctx.genes[key])
         else:
             now = canon.coverage(ctx.samples[key].coverage, full=True)
-        d = canon.first_diff(snap, now)
+        d = None if snap == now else canon.first_diff(snap, now)
         if d:
             out.append({"what": f"{kind}:{key if isinstance(key, str) else key[0]}", "diff": d[:300],
                         "after": after})
@@ -593,6 +660,39 @@ def _stages(ctx, gname, sname):
         st["exc"] = O.exc_info(ex)
     ctx.stage[key] = st
     return st
+
+
+def _candidates(ctx, gname, sname):
+    """Candidate major solutions with different gene structures: the real stage
+    results plus estimate_major() for user-chosen structures (what --cn does)."""
+    import aldy.major
+    from aldy.solutions import CNSolution
+
+    key = ("cands", gname, sname)
+    if key in ctx.stage:
+        return ctx.stage[key]
+    st = _stages(ctx, gname, sname)
+    g, s = _load(ctx, gname, sname)
+    cands = list(st["majors"])[:3]
+    seen = {_cand_key(m) for m in cands}
+    alts = [["1"] * k for k in (2, 3, 1)]
+    for cn, c in g.cn_configs.items():
+        if cn != "1" and str(c.kind).endswith("FUSION"):
+            alts.append(["1", cn])
+    for i, alt in enumerate(alts):
+        if len(cands) >= 5:
+            break
+        try:
+            ms = aldy.major.estimate_major(g, s.coverage, CNSolution(g, 0, alt), solver="cbc",
+                                           identifier=100 + i)
+        except Exception:
+            continue
+        for m in ms[:1]:
+            if _cand_key(m) not in seen:
+                seen.add(_cand_key(m))
+                cands.append(m)
+    ctx.stage[key] = cands
+    return cands
 
 
 def _cand_key(m):
@@ -649,11 +749,13 @@ def _op(ctx, op):
         for g0, gs, cov0, cs in watched:
             ctx.state_checks += 2
             r["gene_digests"][g0.name] = canon.digest(gs)
-            d = canon.first_diff(gs, canon.gene(g0))
+            now = canon.gene(g0)
+            d = None if gs == now else canon.first_diff(gs, now)
             if d:
                 chg.append({"what": f"gene:{g0.name}", "diff": d[:300], "after": "genotype()"})
             if cov0 is not None:
-                d = canon.first_diff(cs, canon.coverage(cov0, full=True))
+                now = canon.coverage(cov0, full=True)
+                d = None if cs == now else canon.first_diff(cs, now)
                 if d:
                     chg.append({"what": f"cov:{g0.name}", "diff": d[:300], "after": "genotype()"})
         r["_chg"] = chg
@@ -693,9 +795,8 @@ def _op(ctx, op):
     elif kind == "minor_order":
         import aldy.minor
 
-        st = _stages(ctx, op["gene"], op["sample"])
         g, s = _load(ctx, op["gene"], op["sample"])
-        cands = list(st["majors"])
+        cands = list(_candidates(ctx, op["gene"], op["sample"]))
         n = len(cands)
         order = list(range(n))
         prng = random.Random(op["perm_seed"])
@@ -711,22 +812,28 @@ def _op(ctx, op):
         r["order_kind"] = "subset" if mode == "subset" else "order"
         r["n_candidates"] = n
         r["n_structures"] = len({canon.jdump(canon.cn_solution(m.cn_solution)["solution"]) for m in cands})
-        ref = {}
+        def refine(idxs):
+            out = {}
+            sel = [cands[j] for j in idxs]
+            res = aldy.minor.estimate_minor(g, s.coverage, sel, "cbc", max_solutions=1)
+            min_score = min(m.score for m in sel)
+            for ms in res:
+                key = _cand_key(ms.major_solution)
+                c = canon.minor_solution(ms)
+                c["score"] = ms.score - (ms.major_solution.score - min_score)
+                c["major"]["score"] = 0.0
+                c["major"]["cn"]["score"] = 0.0
+                out.setdefault(key, []).append(c)
+            return out
+
+        ref, nat = {}, {}
         if n:
-            sel = [cands[j] for j in order]
             try:
-                res = aldy.minor.estimate_minor(g, s.coverage, sel, "cbc",
-                                                max_solutions=s.profile.max_minor_solutions)
-                min_score = min(m.score for m in sel)
-                for ms in res:
-                    key = _cand_key(ms.major_solution)
-                    c = canon.minor_solution(ms)
-                    c["score"] = ms.score - (ms.major_solution.score - min_score)
-                    c["major"]["score"] = 0.0
-                    c["major"]["cn"]["score"] = 0.0
-                    ref.setdefault(key, []).append(c)
+                nat = refine(list(range(n)))
+                ref = refine(order) if order != list(range(n)) else nat
             except Exception as ex:
                 r["exc"] = O.exc_info(ex)
+        r["natural"] = nat
         r["refinements"] = ref
     else:
         raise ValueError(kind)
